@@ -858,10 +858,52 @@ def wl_many_sites(rng, rec, tier):
     return {"n": n, "xs": xs, "zs": zs}
 
 
+def wl_rewrites(rng, rec, tier):
+    """the module level rewriting functions on plain term dictionaries (several
+    operators on one site, in any order): Jordan-Wigner then Pauli decomposition
+    must denote the operator they were given"""
+    from quimb.operator import builder as qb
+    n = int(rng.integers(1, 5))
+    regs = {i: i for i in range(n)}
+    terms = {}
+    pool = ["x", "y", "z", "+", "-", "n", "sx", "sy", "sz"]
+    for _ in range(int(rng.integers(1, 5))):
+        ops = tuple((gen.choice(rng, pool), int(rng.integers(0, n))) for _ in range(int(rng.integers(1, 5))))
+        c = complex(np.round(rng.normal(), 3), np.round(rng.normal(), 3) if rng.random() < 0.4 else 0.0) or 1.0
+        terms[ops] = terms.get(ops, 0.0) + c
+    fermi = bool(rng.random() < 0.5)
+    want = ref_operator([(c, ops) for ops, c in terms.items()], regs, n, fermi)
+    cur = terms
+    steps = []
+    if fermi:
+        cur = gen.attempt2(qb.jordan_wigner_transform, cur, site_to_reg=lambda s_: s_)
+        steps.append("jw")
+        if cur is gen.REJECTED:
+            return {"n": n, "rejected": "jw"}
+    kw = {"site_to_reg": (lambda s_: s_)} if rng.random() < 0.7 else {}
+    dec = gen.attempt2(qb.pauli_decompose, cur, use_zx=bool(rng.random() < 0.3), **kw)
+    steps.append("pauli")
+    if dec is gen.REJECTED:
+        rec.count("rewrite", "meaning", "rejected")
+        return {"n": n, "rejected": "pauli", "kw": sorted(kw)}
+    try:
+        got = ref_operator([(c, ops) for ops, c in dec.items()], regs, n, False)
+    except Exception:
+        rec.check("rewrite", "meaning", False, mech="rewrite:pauli_decompose:unknown_labels", detail={"n": n}, sig=("rw", "labels"))
+        return {"n": n}
+    sc = max(float(np.abs(want).max()), max(abs(c_) for c_ in terms.values()), 1e-300)
+    err = float(np.abs(got - want).max())
+    rec.check("rewrite", "meaning", err <= 1e-9 * sc, mech="rewrite:pauli_decompose:operator_changed",
+              detail={"n": n, "err": err, "steps": steps, "terms": [(str(c), ops) for ops, c in list(terms.items())[:3]]},
+              sig=("rw", fermi, n))
+    return {"n": n, "fermi": fermi}
+
+
 WORKLOADS = [
     ("builder", 6, wl_builder),
     ("sector", 3, wl_sector),
     ("hilbert", 4, wl_hilbert),
     ("spin_chains", 3, wl_spin_chains),
     ("many_sites", 1, wl_many_sites),
+    ("rewrites", 1, wl_rewrites),
 ]
